@@ -85,6 +85,7 @@ func verifyFunction(p *Program, ct *Contracts, fc *FuncContract, cc *CaseContrac
 	for _, un := range fc.Unshared {
 		if v := f.params[un]; v != nil {
 			e.unshared = append(e.unshared, v.T)
+			e.assume("true", sel(e.unshComp(), v.T))
 			e.note("lock discipline: parameter " + un + " of " + fc.Name + " is declared unshared (no other goroutine can reach it yet)")
 		} else {
 			e.fail("unshared: no parameter %s", un)
